@@ -35,10 +35,21 @@ type mangler struct {
 }
 
 func newMangler() *mangler {
-	return &mangler{
+	m := &mangler{
 		names: make(map[string]map[string]string),
 		taken: make(map[string]struct{}),
 	}
+
+	// Native primitive types are mangled to their own names: a custom type
+	// called "String" or "I32" must not share helpers with them.
+	for _, spec := range []compile.TypeSpec{
+		&compile.BoolSpec{}, &compile.I8Spec{}, &compile.I16Spec{},
+		&compile.I32Spec{}, &compile.I64Spec{}, &compile.DoubleSpec{},
+		&compile.StringSpec{}, &compile.BinarySpec{},
+	} {
+		m.taken[goCase(spec.ThriftName())] = struct{}{}
+	}
+	return m
 }
 
 func (m *mangler) MangleType(spec compile.TypeSpec) string {
